@@ -136,7 +136,16 @@ def run(ctx):
     # ------------------------------------------------------------------ R3
     sq = mod.cls('squared_property')
     getf = mod.func('squared_property.__get__')
-    setf = mod.func('squared_property.__set__')
+    if not mod.has_func('squared_property.__set__'):
+        # without __set__ the descriptor is a non-data descriptor: an assignment to
+        # the squared name lands in the instance __dict__ and shadows the product
+        ctx.ob('C18.R3', 'squared:setter-present', False,
+               'squared_property defines __set__ (a data descriptor): assigning to <name>_squared '
+               'updates the plain value instead of shadowing the computed square', mod,
+               mod.cls('squared_property'))
+        setf = None
+    else:
+        setf = mod.func('squared_property.__set__')
     namef = mod.func('squared_property.__set_name__')
     rets = [r for r in walk_no_nested(getf) if isinstance(r, ast.Return) and r.value is not None]
     gcan = canon(getf)
@@ -158,12 +167,13 @@ def run(ctx):
            'squared_property.__get__ returns plain * plain, computed at read time (the product gives '
            'inf for a huge cut-off where ** 2 raises OverflowError); returns: %s' % get_forms,
            mod, getf)
-    sets = [c for c in calls_in(setf) if call_name(c) == 'setattr']
-    set_ok = len(sets) == 1 and len(sets[0].args) == 3 and \
-        norm(sets[0].args[2]).replace(' ', '') in ('%s**0.5' % setf.args.args[2].arg,
-                                                  'math.sqrt(%s)' % setf.args.args[2].arg)
-    ctx.ob('C18.R3', 'squared:set-writes-root', set_ok,
-           'squared_property.__set__ stores the square root into the plain attribute', mod, setf)
+    if setf is not None:
+        sets = [c for c in calls_in(setf) if call_name(c) == 'setattr']
+        set_ok = len(sets) == 1 and len(sets[0].args) == 3 and \
+            norm(sets[0].args[2]).replace(' ', '') in ('%s**0.5' % setf.args.args[2].arg,
+                                                      'math.sqrt(%s)' % setf.args.args[2].arg)
+        ctx.ob('C18.R3', 'squared:set-writes-root', set_ok,
+               'squared_property.__set__ stores the square root into the plain attribute', mod, setf)
     name_ok = any(isinstance(n, ast.Assign) and '_squared' in norm(n.value)
                   and ('[:-len(' in norm(n.value) or 'removesuffix' in norm(n.value))
                   for n in walk_no_nested(namef))
